@@ -46,6 +46,8 @@ class Proc(object):
                 except BaseException:
                     pass
             finally:
+                from .common import cov_save
+                cov_save()
                 os._exit(code)
         os.close(req_w); os.close(go_r); os.close(res_w)
         self.pid = pid
